@@ -339,6 +339,29 @@ Theorem C14_fine_no_lost_update : forall sg r0 st0 ftr f,
 Proof. exact fine_no_lost_update. Qed.
 Print Assumptions C14_fine_no_lost_update.
 
+(* Pool.Get / release: the [pool] field of the transition system is a reference count moved by
+   pool_get / pool_put (the functions the P lines replay against syncutil.Pool: identity of the
+   pooled Merge across Get / release in lock order, including a release that waits for the
+   pool lock while a Get overtakes it); a fresh entry is a zero Merge; and in every reachable
+   state, while some caller holds the entry, Get never creates a second one *)
+Theorem C14_pool_is_refcount : forall sg s e s',
+  step sg s e = Some s' ->
+  match e with
+  | EGet _ _ => pool s' = fst (pool_get (pool s)) /\
+                (snd (pool_get (pool s)) = true ->
+                 items s' = [] /\ pending s' = [] /\ committed s' = false /\ token s' = false)
+  | EDone _ => pool s' = pool_put (pool s)
+  | _ => pool s' = pool s
+  end.
+Proof. exact pool_is_refcount. Qed.
+Print Assumptions C14_pool_is_refcount.
+
+Theorem C14_pool_shared : forall sg r0 st0 tr s t c s',
+  run sg (init r0 st0) tr = Some s -> (exists x, holding (pcs s x) = true) ->
+  step sg s (EGet t c) = Some s' -> snd (pool_get (pool s)) = false.
+Proof. exact pool_shared. Qed.
+Print Assumptions C14_pool_shared.
+
 (* channel-level DEADLOCK FREEDOM: in every reachable state of the channel-level system in which
    some caller is inside Do or has not yet called its release function, a step other than a new
    call / an external tag drop is enabled: a send of complete() that blocks on the full buffer
@@ -415,6 +438,10 @@ Example fine_block_ex :
   | None => False
   end.
 Proof. vm_compute. repeat split. eexists. split; reflexivity. Qed.
+
+(* Get, Get (shared), release, Get (still shared), release, release, Get (fresh again) *)
+Example pool_ex : pool_trace None [true; true; false; true; false; false; true] = [true; false; false; true].
+Proof. reflexivity. Qed.
 
 Example quiescent_ex : forall s, run false (init None []) ex_trace = Some s -> quiescent s.
 Proof.
